@@ -620,11 +620,19 @@ func TestC11(t *testing.T) {
 		return
 	}
 	if env.Shards <= 1 {
-		c11v2(h)
-		c11v3(h, 1)
-		c11v3(h, 2)
-		c11v4(h)
-		h.R.SetExhaustive(true)
+		if !env.Light {
+			c11v2(h)
+			c11v3(h, 1)
+			c11v3(h, 2)
+			c11v4(h)
+		}
+		for _, vi := range []int{1, 2, 3} {
+			cs := newCornerSpace(vi)
+			Enum(h, "score-shape", cs.size(), cs.decode, nil, checkScoreShape)
+			h.R.AddExact(int64(cs.size()), int64(cs.size()))
+			h.R.Count("v"+spec.Versions[vi].Name+" corners: every subset of the Modified metrics explicit at an extreme x requirement / temporal / threat spellings x 2 base backgrounds", int64(cs.size()))
+		}
+		h.R.SetExhaustive(!env.Light)
 		for _, c := range []ScoreCase{{0, v2Decode(77777777)}, v3ClassDecode(1, 5555555), v3ClassDecode(2, 15000000), v4ClassCase(9000000)} {
 			o, _ := adapt.Pkgs[c.Ver].Build(c.A)
 			h.R.Sample("class", map[string]any{"version": spec.Versions[c.Ver].Name, "vector": c.vec(), "scores": o.Scores()})
@@ -702,12 +710,66 @@ type dim struct {
 
 // graph describes a class space with severity-ordered dimensions.
 type graph struct {
-	ver    int
-	label  string
-	dims   []dim
-	fixed  map[string]string // metrics not in dims
-	scores []int
-	assign func(g *graph, digits []int) spec.Assignment
+	ver       int
+	label     string
+	dims      []dim
+	fixed     map[string]string // metrics not in dims
+	fixedKeys []string
+	scores    []int
+	assign    func(g *graph, digits []int) spec.Assignment
+}
+
+// fixedOrder: the fixed metrics in a stable order.
+func (g *graph) fixedOrder() []string {
+	if g.fixedKeys == nil && len(g.fixed) > 0 {
+		for _, m := range spec.Versions[g.ver].Metrics {
+			if _, ok := g.fixed[m.Abv]; ok {
+				g.fixedKeys = append(g.fixedKeys, m.Abv)
+			}
+		}
+	}
+	return g.fixedKeys
+}
+
+// severity chains (ascending) of the metrics a Modified metric can override
+var sevV3 = map[string][]string{"AV": {"P", "L", "A", "N"}, "AC": {"H", "L"}, "PR": {"H", "L", "N"}, "UI": {"R", "N"}, "S": {"U", "C"},
+	"C": {"N", "L", "H"}, "I": {"N", "L", "H"}, "A": {"N", "L", "H"}}
+var sevV4 = map[string][]string{"AV": {"P", "L", "A", "N"}, "AC": {"H", "L"}, "AT": {"P", "N"}, "PR": {"H", "L", "N"}, "UI": {"A", "P", "N"},
+	"VC": {"N", "L", "H"}, "VI": {"N", "L", "H"}, "VA": {"N", "L", "H"}, "SC": {"N", "L", "H"}, "SI": {"N", "L", "H", "S"}, "SA": {"N", "L", "H", "S"}}
+
+// modifiedGraph: the complete space of the Modified metrics over one fixed base combination. Every
+// Modified metric ranges over all its values and X; X stands in the chain next to the base value it
+// falls back to. The neighbour pairs therefore include every step expressed by defining a Modified
+// metric on one side only (mixed carriers), for every subset of the other Modified metrics defined.
+func modifiedGraph(vi int, bg int, extra []dim, scores []int) *graph {
+	v := spec.Versions[vi]
+	sev := sevV3
+	if vi == 3 {
+		sev = sevV4
+	}
+	full := background(v, bg)
+	g := &graph{ver: vi, fixed: map[string]string{}, scores: scores, assign: defaultAssign}
+	mod := spec.ModifiedOf(v)
+	vec := ""
+	for _, m := range v.Metrics {
+		if !m.Mandatory {
+			continue
+		}
+		b := full[m.Abv]
+		g.fixed[m.Abv] = b
+		vec += "/" + m.Abv + ":" + b
+		var chain []string
+		for _, x := range sev[m.Abv] {
+			chain = append(chain, x)
+			if x == b {
+				chain = append(chain, "X")
+			}
+		}
+		g.dims = append(g.dims, dim{mod[m.Abv], chain})
+	}
+	g.dims = append(g.dims, extra...)
+	g.label = fmt.Sprintf("v%s Modified metrics (every value and X) over the fixed base %s", v.Name, vec[1:])
+	return g
 }
 
 func (g *graph) size() int {
@@ -780,6 +842,7 @@ func v4GraphDims() []dim {
 
 // runGraph evaluates every class, then checks every neighbour pair.
 func runGraph(h *H, g *graph) {
+	g.fixedOrder() // computed before the workers start
 	n := g.size()
 	p := adapt.Pkgs[g.ver]
 	ns := len(g.scores)
@@ -797,6 +860,11 @@ func runGraph(h *H, g *graph) {
 				var sc []float64
 				if g.ver == 3 {
 					var o gocvss40.CVSS40
+					for _, name := range g.fixedOrder() {
+						if err := o.Set(name, g.fixed[name]); err != nil {
+							panic(err)
+						}
+					}
 					for k, dg := range g.digits(i) {
 						name, val := g.dims[k].Name, g.dims[k].Vals[dg]
 						var err error
@@ -922,10 +990,15 @@ func TestC12(t *testing.T) {
 		{ver: 2, label: "v3.1 base+temporal+environmental", dims: append(append([]dim{}, v3BaseTempDims...), v3ReqDims...), scores: []int{0, 1, 2}, assign: defaultAssign},
 		{ver: 3, label: "v4.0", dims: v4GraphDims(), scores: []int{0}, assign: defaultAssign},
 	}
+	if env.Light {
+		// the 32-bit process: the two small graphs, v3.1 base+temporal, and the Modified spaces below
+		graphs = graphs[:2]
+		graphs = append(graphs, &graph{ver: 2, label: "v3.1 base+temporal", dims: v3BaseTempDims, scores: []int{0, 1}, assign: defaultAssign})
+	}
 	for _, g := range graphs {
 		runGraph(h, g)
 	}
-	h.R.SetExhaustive(true)
+	h.R.SetExhaustive(!env.Light)
 	// Modified-metric route for v3.1 environmental monotonicity: the same graph with the
 	// effective values carried by the Modified metrics over a fixed base.
 	gm := &graph{ver: 2, label: "v3.1 environmental via Modified metrics (base fixed)", scores: []int{2},
@@ -934,5 +1007,19 @@ func TestC12(t *testing.T) {
 			{"CR", []string{"L", "M", "H"}}, {"IR", []string{"L", "M", "H"}}, {"AR", []string{"L", "M", "H"}}, {"E", []string{"U", "P", "F", "H"}}},
 		fixed:  map[string]string{"AV": "L", "AC": "H", "PR": "L", "UI": "R", "S": "U", "C": "L", "I": "N", "A": "H"},
 		assign: defaultAssign}
-	runGraph(h, gm)
+	if !env.Light {
+		runGraph(h, gm)
+	}
+	// mixed carriers: the complete Modified space (every value and X of every Modified metric) over fixed
+	// base combinations - the first and the last value of every base metric, mixed ones, and more
+	// that rotate with the seed
+	nbg := env.Scale(3, 40)
+	for k := 0; k < nbg; k++ {
+		bg := k
+		if k >= 2 {
+			bg = 2 + (int(env.Seed%1000)*nbg+k)%5000
+		}
+		runGraph(h, modifiedGraph(3, bg, nil, []int{0}))
+		runGraph(h, modifiedGraph(2, bg, []dim{{"CR", []string{"L", "M", "X", "H"}}, {"IR", []string{"L", "M", "H"}}, {"AR", []string{"L", "M", "H"}}, {"E", []string{"U", "H", "X"}}}, []int{2}))
+	}
 }
